@@ -24,7 +24,14 @@ the modifications on its own copy of the content (`Content`) and judges every qu
 
 Cases with "fam": 1 (kinds fam / fam-ex) are FAMILIES of Network objects that share their Node and Edge objects: "fops" =
 [[k, op], …], op being a call on network k, ["X", s, cut] = nets.append(nets[k].sub_network(s, cut)) (result kept and used).
-`fam_split` turns a family into one "mut" session per network; model, comparison and oracle run per network (see there)."""
+`fam_split` turns a family into one "mut" session per network; model, comparison and oracle run per network (see there).
+
+Cases with "astar": 1 (kind astar) carry the object's ROUTING SETTINGS in their ops:
+    ["M", mode]   setRoutingMethod(mode)   (1 = Network.ROUTING_ALGO_ASTAR)
+    ["A", w]      setAStarWeight(w)
+float weights; the model runs `Model/GraphAStarPath.lean` at Float (command fasession). The oracle holds a search made in A*
+mode WITH a target to "optimal" only when the heuristic astar_wgt * Node.distanceTo(target) is consistent
+(`heuristic_consistent`: C06's predicate); realness, continuity and "weights sum to the reported value" are judged always."""
 import itertools, os, tempfile
 from fractions import Fraction
 from engine import Prop, fbits, bitsf
@@ -346,6 +353,157 @@ def random_ops(rng, n, d, fl=False, nodes=None, blocks=None):
 
 # ------------------------------------------------------------------------------------ networks modified between the calls
 MUTATIONS = ("W", "O", "G", "C", "E", "N")
+SETTINGS = ("M", "A")          # setRoutingMethod / setAStarWeight: neither a search nor a modification of the content
+ASTAR_WGT = [0, 0.5, 1, 1, 1, 1.5, 2, 0.3]
+
+
+def hdist_sq(pos, a, b):
+    """squared straight-line distance between the nodes a and b as Node.distanceTo sees it (the altitude counts), exact"""
+    (xa, ya), (xb, yb) = pos[a], pos[b]
+    return Fraction(xb - xa) ** 2 + Fraction(yb - ya) ** 2 + Fraction(alt(xb, yb) - alt(xa, ya)) ** 2
+
+
+def heuristic_consistent(pos, edges, wgt):
+    """C06's predicate (harness/props/c06.py, TV.C06.astar_heuristic_consistent / TV.C07.astar_metric_path_optimal): the
+    'theoretical assumptions on the metrics used to set weights' of setRoutingMethod's docstring for the heuristic
+    astar_wgt * (straight-line distance to the target): 0 <= astar_wgt and every edge weighs at least astar_wgt times the
+    straight-line distance between its two ends. Then the heuristic is consistent whatever the target and A* is exact."""
+    wgt = Fraction(nc.num(wgt))
+    if wgt < 0:
+        return False
+    return all(Fraction(nc.num(e[3])) ** 2 >= wgt ** 2 * hdist_sq(pos, e[1], e[2]) for e in edges)
+
+
+def settings_timeline(case):
+    """per op: (routing_mode, astar_wgt) of the object when the op is called (Network(): Dijkstra, 1)"""
+    mode, wgt, out = 0, 1, []
+    for o in ops_of(case):
+        out.append((mode, wgt))
+        if o[0] == "M":
+            mode = o[1]
+        elif o[0] == "A":
+            wgt = o[1]
+    return out
+
+
+def regime(case, view, op, setting):
+    """'exact': the statement applies in full (Dijkstra; a search without target — the code never computes the heuristic
+    then; A* with a consistent heuristic). 'approx': A* with a target and a heuristic that is not consistent — documented as
+    approximate: optimality is not required"""
+    mode, wgt = setting
+    if mode != 1 or op[0] == "B" or op[2] == "-":
+        return "exact"
+    pos = [view.pos.get(v, case["pos"][v]) for v in range(case["n"])]
+    return "exact" if heuristic_consistent(pos, view.edges, wgt) else "approx"
+
+
+def metric_up(sq):
+    """the smallest double whose square is at least the rational sq (a straight length, rounded so that the edge is not
+    SHORTER than the straight line between its ends: the consistency predicate is about exact values)"""
+    import math
+    w = math.sqrt(float(sq))
+    while Fraction(w) ** 2 < sq:
+        w = math.nextafter(w, math.inf)
+    return w
+
+
+def random_astar(rng):
+    """a network with node positions in a box of the integer lattice, straight or bent polylines, random pairs joined (long
+    chords crossing the box, 40% one-way streets, some parallel edges) and weights tied to the geometry: the straight
+    length (rounded up), x (1 + a little) (two routes of nearly equal cost are the rule), x 1..3, the polyline's length,
+    half the straight length (consistent for astar_wgt <= 1/2 only), unrelated (usually not consistent). The object is
+    switched to A* (astar_wgt default or set), queried for many ordered pairs by shortest_path, now and then by
+    shortest_distance / run_routing_forward + run_routing_backward, with a cut-off, switched back to Dijkstra."""
+    n = rng.randint(3, 12) if rng.random() < 0.8 else rng.randint(2, 5)
+    B = rng.choice([3, 6, 10, 14, 20])
+    pos = [[rng.randint(0, B), rng.randint(0, B)] for _ in range(n)]
+    dens = rng.choice([1.0, 1.3, 1.6, 1.6, 2.0, 2.5])
+    m = max(1, int(dens * n))
+    oneway = rng.choice([0.0, 0.4, 0.4, 0.7])
+    style = rng.random()
+    edges, lines = [], []
+    for i in range(m):
+        if edges and rng.random() < 0.07:          # parallel to an existing edge
+            _, s, t, _, _ = rng.choice(edges)
+            if rng.random() < 0.5:
+                s, t = t, s
+        else:
+            s, t = rng.randrange(n), rng.randrange(n)
+        o = rng.choice([1, -1]) if rng.random() < oneway else 0
+        r = rng.random()
+        if r < 0.7:
+            l = [list(pos[s]), list(pos[t])]
+        elif r < 0.95:
+            l = [list(pos[s]), [rng.randint(0, B), rng.randint(0, B)], list(pos[t])]
+        else:
+            l = [list(pos[s]), list(pos[s]), [rng.randint(0, B), rng.randint(0, B)], list(pos[t])]
+        straight = metric_up(hdist_sq(pos, s, t))
+        seg = lambda a, b: metric_up(Fraction(b[0] - a[0]) ** 2 + Fraction(b[1] - a[1]) ** 2 + Fraction(alt(*b) - alt(*a)) ** 2)
+        length = max(straight, float(sum(seg(a, b) for a, b in zip(l, l[1:]))))
+        if style < 0.3:
+            w = straight
+        elif style < 0.55:
+            w = straight * (1 + 0.2 * rng.random())
+        elif style < 0.7:
+            w = length
+        elif style < 0.8:
+            w = straight * rng.choice([1, 1, 1.5, 2, 3])
+        elif style < 0.9:
+            w = straight * 0.5
+        else:
+            w = rng.choice([0.0, rng.random() * B, rng.random() * 3 * B, straight])
+        edges.append([i, s, t, float(w), o])
+        lines.append(l)
+    order = list(range(n)); rng.shuffle(order)
+    case = {"kind": "astar", "astar": 1, "float": 1, "n": n, "order": order, "edges": edges, "pos": pos, "lines": lines}
+    r = rng.random()
+    if r < 0.2:
+        case["ids"] = "str"
+    r = rng.random()
+    if r < 0.2:
+        case["build"] = "fresh"
+    elif r < 0.35:
+        case["build"] = "lazy"
+    if rng.random() < 0.1:
+        case["af"] = 1
+    d = nc.floyd_warshall(n, edges)
+    form = lambda v: rng.choice(["", "", "", "", "o", "f"]) + str(v)
+    ops = []
+    if rng.random() < 0.15:
+        ops.append(["P", form(rng.randrange(n)), form(rng.randrange(n)), "none", 0])      # a Dijkstra search first
+    if rng.random() < 0.5:
+        ops.append(["A", rng.choice(ASTAR_WGT)])
+    ops.append(["M", 1])
+    if rng.random() < 0.15:
+        ops.append(["A", rng.choice(ASTAR_WGT)])
+    ds = sorted({x for row in d for x in row if x is not None})
+    cuts = [repr(float((a + b) / 2)) for a, b in zip(ds, ds[1:]) if b - a > Fraction(1, 10**6) * max(1, b)] + [repr(float(ds[-1]) * 1.5 + 1.0)]
+    pairs = [(s, t) for s in range(n) for t in range(n) if s != t]
+    rng.shuffle(pairs)
+    if rng.random() < 0.5:
+        pairs = pairs[:rng.randint(1, 12)]
+    for (s, t) in pairs[:60]:
+        r = rng.random()
+        c = rng.choice(cuts) if rng.random() < 0.08 else "none"
+        ud = 1 if rng.random() < 0.05 else 0
+        if r < 0.86:
+            ops.append(["P", form(s), form(t), c, ud])
+        elif r < 0.9:
+            pair = [["P", form(s), form(t), c, ud], ["D", form(s), form(t), c, ud]]
+            rng.shuffle(pair)
+            ops += pair
+        elif r < 0.95:
+            ops.append([rng.choice("FD"), form(s), rng.choice([form(t), form(t), "-"]), c, ud])
+            for _ in range(rng.randint(1, 2)):
+                ops.append(["B", form(rng.choice([t, t, rng.randrange(n)]))])
+        elif r < 0.975:
+            ops.append(["A", rng.choice(ASTAR_WGT)])
+        else:
+            ops.append(["M", rng.choice([0, 0, 1, 2])])
+            ops.append(["P", form(s), form(t), c, ud])
+            ops.append(["M", 1])
+    case["ops"] = ops
+    return case
 ORI_FROZEN = "orientation-frozen-at-addEdge"
 
 
@@ -455,7 +613,7 @@ def timeline(case, frozen_ori=False):
             if c.apply(op):
                 stale = True
                 cur = c.frozen()
-        elif op[0] != "B":
+        elif op[0] != "B" and op[0] not in SETTINGS:
             stale = False
     return out
 
@@ -814,6 +972,8 @@ class P(Prop):
     id = "C07"
     design_ref = "DESIGN.md section 5, C07"
     M = "TracklibVerif.Props.C07"
+    MA = "TracklibVerif.Props.C07AStar"
+    MF = "TracklibVerif.Props.C07Family"
     theorems = [
         (M, "TV.C07.forward_state_good", "the flags left by run_routing_forward(s,t,cut) satisfy the invariants: antecedent is settled, joined by antecedent_edge in a permitted direction, tight (d v = d a + w), well-founded in settle order"),
         (M, "TV.C07.path_is_walk", "any path returned by shortest_path(s,t,cut): node list from s to t, consecutive nodes joined by the recorded edge in a permitted direction; geometry = chain of those edges' polylines along the travel, junctions once, ending at pos t; weights sum to the label of t"),
@@ -844,17 +1004,42 @@ class P(Prop):
         (M, "TV.C07.path_any_history", "ANY history, orientation assignments included: shortest_path(s,t,cut) = shortest_path on a fresh network holding the content that the same history without its orientation assignments produces (current weights, polylines, coordinates; each edge with the orientation it was added with)"),
         (M, "TV.C07.mut_never_diverges", "in any sequence of calls on a new network (modifications, orientation assignments, stopped searches, run_routing_backward on flags older than the last modification, unknown nodes) no shortest_path / run_routing_backward loops for ever"),
         (M, "TV.C07.path_after_orientation_assignment", "after getEdge(i).orientation = x a shortest_path still answers for the content before the assignment (the orientations the edges were added with)"),
+        (MA, "TV.C07.astar_forward_state_good", "A* mode, ANY heuristic, any target, any cut-off: the flags left by run_routing_forward satisfy the predecessor invariant (antecedent settled, joined by antecedent_edge in a permitted direction, tight, ranked in settle order)"),
+        (MA, "TV.C07.astar_path_is_walk", "A* mode, ANY heuristic (consistent or not), any cut-off: a path returned by shortest_path is a real route from s to t along the recorded edges, geometry = their polylines chained along the travel closed by pos t, weights sum to the label of t = what shortest_distance reports in that mode"),
+        (MA, "TV.C07.astar_geometry_chained", "A* mode, any heuristic: if every polyline joins the positions of its ends, the returned geometry = pos s followed by the used edges' polylines along the travel, each minus its first vertex; starts at pos s, ends at pos t"),
+        (MA, "TV.C07.astar_unreachable_none", "A* mode, any heuristic, any cut-off: no permitted walk => None; t = s => None"),
+        (MA, "TV.C07.astar_reachable_path", "A* mode, any heuristic, no cut-off: a reachable target other than the source always gets a path"),
+        (MA, "TV.C07.astar_never_diverges", "A* mode, any heuristic: the backward loop terminates on the flags left by the forward pass"),
+        (MA, "TV.C07.astar_track_operators_agree", "A* mode: run_routing_backward through the C04 track operators returns the list-level model's node list and points, no analytical feature"),
+        (MA, "TV.C07.astar_path_optimal", "A* mode with a CONSISTENT heuristic: None iff unreachable or t = s; the weights of the returned path sum to the true shortest distance"),
+        (MA, "TV.C07.astar_path_optimal_cut", "A* mode, consistent heuristic smallest at the target, with a cut-off not below the true distance: the returned path realises the true distance"),
+        (MA, "TV.C07.astar_metric_path_optimal", "the property in A* mode from the configuration only: Node.distanceTo Euclidean (any sqrt that is a square root on an ordered field), 0 <= astar_wgt, every permitted arc >= astar_wgt x straight-line distance of its ends (the oracle's predicate heuristic_consistent) => None iff unreachable or t = s; a returned path is a real chained route weighing the reported value, = the true distance without cut-off and whenever the distance is within the cut-off"),
+        (MA, "TV.C07.dijkstra_mode_is_session", "an object whose routing_mode is not 1 answers every call, and is left in the state, of the Dijkstra session (heuristic keeps its initial 0), whatever astar_wgt and the coordinates"),
+        (MA, "TV.C07.astar_session_path_fresh", "shortest_path at any point of a session on an object with routing settings = shortest_path on a fresh network with the settings of that moment (flags of earlier searches in either mode reset); the label left on the target = shortest_distance's value"),
+        (MA, "TV.C07.astar_session_dist_fresh", "shortest_distance(s,t,cut) at any point of such a session = on a fresh network with the settings of that moment"),
+        (MA, "TV.C07.astar_path_cut_sound", "A* mode, consistent heuristic smallest at the target, ANY cut-off: a returned path is a real chained route weighing the value shortest_distance reports; that value is >= the true distance and equal to it unless it exceeds the cut-off"),
+        (MA, "TV.C07.astar_session_metric_optimal", "at ANY point of a session on an object in A* mode with 0 <= astar_wgt and arcs >= astar_wgt x straight-line length: shortest_path(s,t) never diverges, is None iff t unreachable or t = s, else a feature-less track that is the chain of a real route whose weights sum to the true shortest distance = the label left on the target (nodes by id or object, output_dict or not, whatever was searched before in either mode)"),
+        (MA, "TV.C07.astar_backward_settled_optimal", "A* mode, consistent heuristic: after a search stopped at its target or by a cut-off, run_routing_backward(t) for any node t != s settled before the stop returns a route realising the true distance"),
+        (MA, "TV.C07.astar_session_outputs_ok", "STATE MACHINE with routing settings: in ANY sequence of setRoutingMethod / setAStarWeight / shortest_path / shortest_distance / run_routing_forward / run_routing_backward calls on one network (any astar_wgt and coordinates — the heuristic need not be consistent —, modes switched at any moment, any targets and cut-offs) the backward loop terminates and every returned track is the chain of a real route whose weights sum to the label of its last node"),
+        (MA, "TV.C07.setters_touch_settings_only", "setRoutingMethod / setAStarWeight change their own attribute only: neither the node flags nor the output_dict"),
+        (MF, "TV.C07.family_path_as_private", "FAMILIES (networks sharing Node / Edge objects, sub_network kept and used): whatever flags the shared Node objects carry (anything any other network's search wrote), shortest_path(s,t,cut) of a network returns exactly the pure shortest_path of ITS OWN graph, leaves its shortest_distance on the target and touches the flags of its own nodes only"),
+        (MF, "TV.C07.family_backward_as_private", "families: run_routing_forward(s,tgt,cut) followed by run_routing_backward(t') on the same network returns what it returns with Node objects of its own, whatever the flags found on the shared objects"),
+        (MF, "TV.C07.family_program_path_as_private", "ANY PROGRAM over a family (Network(), edges added, distance / table / prepare calls, sub_network kept as a new network, extracts of extracts, weights of shared Edge objects assigned, shortest_path on any network, in any order): nets[k].shortest_path(s,t,cut) returns the pure shortest_path of network k's own current graph and leaves its shortest_distance on the target"),
+        (MF, "TV.C07.family_path_optimal", "families: shortest_path(s,t) of a network never diverges, is None iff t is unreachable in THIS network or t = s, else the chain of a route of this network whose weights sum to its true shortest distance — whatever the other networks were asked before"),
     ]
     partial = []
     open_statements = ["Track.copy is modelled as the identity on (points, feature table): that the returned track shares no Obs / coordinate object with the network is not a theorem; the harness checks it by moving the points of every returned track (scribble stream) and validating the later answers of the session",
                        "arithmetic: every theorem holds for any addition satisfying WalkAdd (x <= x + w for w >= 0, and + monotone on the right; associativity, commutativity and cancellation are not used, see the R4 example), i.e. for the sums as the code rounds them; that IEEE-754 double addition satisfies WalkAdd is not proved in Lean (Float is opaque) — the float streams run the model at Float bit for bit",
+                       "A* mode (Props/C07AStar.lean): optimality is proved for a consistent heuristic in EXACT arithmetic (linearly ordered cancellative commutative monoid / ordered field for the straight-line heuristic, sqrt a square root); with float weights the g + h comparisons and sqrt are rounded — the float stream (kind astar) runs the model at Float bit for bit and the oracle judges at 1e-9 relative. "
+                       "For a heuristic that is NOT consistent (documented as approximate by setRoutingMethod) only real / continuous / weights = reported value / None iff unreachable (no cut-off) are proved and judged; whether a path must be returned under a cut-off is not stated then. "
+                       "The A* session (Model/GraphAStarPath.lean) is a session on a network that is not modified between the calls: A* on networks modified between calls (Model/GraphMut.lean) and on families is not modelled; negative astar_wgt is not generated",
                        "run_routing_backward on flags older than the last modification of the network (old antecedents, new weights / polylines): nothing is stated; proved: the loop ends (mut_never_diverges); what it returns is compared with the model only",
                        "modifications through Network.simplify / toENUCoords / toGeoCoords (they replace every edge geometry / node coordinate) are not in the model; the library has no call that removes an edge or a node",
-                       "families of networks sharing their Node and Edge objects (net.sub_network(s, cut) kept and used next to net, extracts of extracts; kinds fam / fam-ex): there is no Lean definition of the family for paths. "
-                       "The model side runs ONE msession (Model/GraphMut.lean) per network — sub_network being the run_routing_forward(s, cut=cut) it performs on the parent, the extract a Network() to which the kept Edge objects are "
-                       "added in the parent's edge order with the parent's Node objects — and the harness, not Lean, predicts which edges are kept (both ends at distance <= cut; TV.Graph.subEdges / TV.C06 have that in Lean for the distances). "
-                       "That the routing attributes written on the SHARED Node objects by another network's search are unobservable is proved for the labels (TV.C06.family_answers_as_private) and not for antecedent / antecedent_edge; "
-                       "run_routing_backward called when those attributes were last written by another network of the family is run but neither compared nor judged (nothing is stated about it)",
+                       "families of networks sharing their Node and Edge objects (net.sub_network(s, cut) kept and used next to net, extracts of extracts; kinds fam / fam-ex): Props/C07Family.lean proves, for ONE call on shared Node objects carrying ANY flags "
+                       "(Model/GraphSharedPath.lean: shortestPathSh = routeOnPD of Model/GraphShared.lean, the loop with the explicit priority_dict resetting the network's own NODES only, then run_routing_backward), that shortest_path and a forward + backward pair answer as on private objects "
+                       "(family_path_as_private, family_backward_as_private, family_path_optimal) — antecedent / antecedent_edge included. The family as a PROGRAM with shortest_path calls is TV.GraphExt.execFamP (family_program_path_as_private: every shortest_path of any program answers for its own network's current graph). The correspondence runs every family BOTH ways: as one msession (Model/GraphMut.lean) per network (every call, geometry included) and as ONE program of the Lean family model (driver fampaths: one common flag store, "
+                       "sub_network's nodes and edges computed by TV.Graph.subEdges and compared with the real extract, every shortest_path compared). Still open: execFamP has no run_routing_backward call (the attributes of a Node object no network of the family has reset yet are not modelled) and no geometry / coordinate modification; "
+                       "run_routing_backward called when the routing attributes were last written by ANOTHER network of the family is run but neither compared nor judged (nothing is stated about it)",
                        "getEdge(i).orientation = x on a built network: proved NOT to be read by routing (orientation_attribute_not_read) — the property read with the current attribute fails there; proposed finding %s (findings/C07.json), its inputs are generated once it is listed" % ORI_FROZEN]
     modelled = ("Network.addNode / addEdge (NODES with first registration winning, EDGES, NEXT_EDGES filled incrementally; proved to give the model's adjacency); "
                 "Network.run_routing_forward (as for C06) with __correctInputNode (node by id / Node object) and __resetFlags on the flags left by earlier searches; "
@@ -865,7 +1050,9 @@ class P(Prop):
                 "routing flags (and which nodes carry them) / output_dict as state, addNode, addEdge (also after searches), getEdge(i).weight / .orientation / .geom = ..., getNode(v).coord = ..., "
                 "the forward pass written over NEXT_EDGES[pere] and EDGES[edge_id] as the code has it (weights read at relaxation time, adjacency as addEdge filled it), KeyError / AttributeError of calls "
                 "naming unregistered / never-searched nodes; "
-                "Network.sub_network (TOPOLOGIC) only as the calls it is made of: run_routing_forward(source, cut=cut) on the parent, then Network() + addEdge(e, e.source, e.target) for the kept edges — one model object per network of the family (see open_statements)")
+                "A* MODE (Model/GraphAStar.lean, Model/GraphAStarPath.lean): Network.__init__'s routing_mode / astar_wgt, setRoutingMethod, setAStarWeight, the A* branch of run_routing_forward as it is after fix c78e3ab (label g, queue priority g + astar_wgt * fils.distanceTo(NODES[target]) when routing_mode == 1 and a target is given, else + the initial 0), "
+                "Node.distanceTo / ENUCoords.distanceTo / norm (3-D Euclidean, sqrt a parameter), shortest_path / shortest_distance / run_routing_forward / run_routing_backward as calls of a session on one object with its settings; "
+                "Network.sub_network (TOPOLOGIC) only as the calls it is made of: run_routing_forward(source, cut=cut) on the parent, then Network() + addEdge(e, e.source, e.target) for the kept edges — one model object per network of the family; AND as one program over a family with ONE common store of routing attributes (Model/GraphShared.lean execFam + Model/GraphSharedPath.lean execFamP: Network(), addNode / addEdge, searches, sub_network with the kept edges computed in Lean, Edge.weight assignment reaching every network that holds the object, shortest_path) (see open_statements)")
     trusted = ["Track.copy (copy.deepcopy) is the identity on the model's immutable values",
                "priority_dict is modelled as extract-min by (priority, node id) (C06 proves the explicit heap equal to it)"]
     rule = (("the C06 graph space (all edge lists of length <= 2 on <= 3 nodes in quick, + all 3-edge multisets in thorough; random to 12 nodes / 40 edges, parallel edges of equal and of "
@@ -884,7 +1071,10 @@ class P(Prop):
             "compared with the model only. Orientation assignments on a built network are generated only once the finding %s is listed. "
             "FAMILIES of networks that share their Node and Edge objects (kinds fam-ex / fam): net.sub_network(s, cut) is called and its result KEPT (up to three extractions, also of extracts), and paths / distances / forward + backward passes are asked on "
             "all of them in any order — most of the time on the PARENT after an extraction, for pairs whose route runs through extracted edges —, run_routing_backward right after sub_network (the flags it left), the weight of a shared Edge "
-            "object assigned in between; every network is judged on its own content (an extract: the node / edge ids read off the returned object), whatever the other networks were asked in between. "
+            "object assigned in between; every network is judged on its own content (an extract: the node / edge ids read off the returned object), whatever the other networks were asked in between; the model side runs each family twice: one session per network, and one program of the Lean family model whose sub_network contents and shortest_path answers are compared with the real objects'. "
+            "A* MODE (kind astar, float weights): nodes in a box of the integer lattice (3 to 20 wide; the altitude counts in Node.distanceTo), random pairs joined by straight or bent polylines (long chords, 0-70%% one-way, parallel edges), weights tied to the geometry — the straight length rounded up, x (1 + up to 20%%) (nearly equal routes), the polyline's length, x 1.5..3, x 0.5 (consistent only for astar_wgt <= 1/2), unrelated —; the object is switched to A* "
+            "(astar_wgt default or one of 0, 0.3, 0.5, 1, 1.5, 2, also changed between calls), then up to 60 ordered pairs are asked by shortest_path (now and then shortest_distance, run_routing_forward + run_routing_backward, a cut-off, output_dict, a switch back to Dijkstra); model = Model/GraphAStarPath.lean at Float (fasession), compared bit for bit; "
+            "the oracle requires optimality when the heuristic is consistent (0 <= astar_wgt, every edge >= astar_wgt x straight-line distance of its ends, exact rationals: C06's predicate) and, always, that a returned path is a real chained route weighing the reported value, None iff unreachable (no cut-off). "
             "non-trivial = some call returns a path; tags count zero-weight edges, edges traversed against their stored direction, ties, op kinds, kinds of modification, whether a weight assignment changed a queried distance") % ORI_FROZEN)
 
     def setup(self):
@@ -903,6 +1093,8 @@ class P(Prop):
                  % ("every edge and every other value: 32004 sessions" if tier == "thorough" else "one random edge and value per graph: 8064 sessions"))
         s.append("families: four 3-node paths (two-way unit, one-way, with a zero-weight and a reverse-stored edge, with a long parallel chord) as network A, B = A.sub_network(s0, c0) kept, for every s0 and c0 in {0, 1, none}: "
                  "every ordered pair by shortest_path on A, on B, on A again (36 families)")
+        s.append("A* mode: all edge lists of length 1..2 on 2..3 nodes, weights {0,4,8}, orientations {-1,0,1}, one random lattice geometry and astar_wgt in {0.5,1,2} each, every ordered pair by shortest_path (%s)"
+                 % ("all 8046 graphs" if tier == "thorough" else "every 4th graph"))
         if tier == "thorough":
             s.append("all multisets of 3 edges on 1..3 nodes over the same alphabet (100482 multigraphs), edge / node insertion order shuffled, one random geometry each")
         return s
@@ -953,6 +1145,20 @@ class P(Prop):
                         pairs = [["P", str(s_), str(t_), "none", 0] for s_ in range(n) for t_ in range(n)]
                         out.append(self.with_geometry(rng, {"kind": "ex-mut", "mut": 1, "n": n, "order": order, "e": list(e),
                                                             "ops": pairs + [["W", j, w, rng.choice([0, 1, 2])]] + pairs}))
+        # the same enumerated graphs in A* MODE: weights {0, 4, 8} on a lattice box of 3 (heuristics consistent and not), astar_wgt
+        # 1 / 0.5 / 2, every ordered pair by shortest_path (quick: every 4th graph)
+        cnt = 0
+        for n in (2, 3):
+            for k in (1, 2):
+                for e in nc.enum_graphs(n, k, ordered=True):
+                    cnt += 1
+                    if tier == "quick" and cnt % 4:
+                        continue
+                    g = nc.explicit({"kind": "astar-ex", "astar": 1, "float": 1, "n": n, "order": list(range(n)), "e": list(e)})
+                    g["edges"] = [[i, a, b, 4.0 * w, o] for (i, a, b, w, o) in g["edges"]]
+                    g["pos"], g["lines"] = nc.random_geometry(rng, n, g["edges"])
+                    g["ops"] = [["A", rng.choice([1, 1, 0.5, 2])], ["M", 1]] + [["P", str(s_), str(t_), "none", 0] for s_ in range(n) for t_ in range(n)]
+                    out.append(g)
         if tier == "thorough":
             for n in (1, 2, 3):
                 for e in nc.enum_graphs(n, 3, ordered=False):
@@ -1004,7 +1210,16 @@ class P(Prop):
         out += enum_families()
         for _ in range(1200 if tier == "quick" else 25000):
             out.append(random_family(rng, self.fam_geometry(rng)))
-        return out
+        # A* mode. These cases make many calls each: they are spread over the whole list (the engine cuts it into consecutive
+        # chunks, one per worker process at a time)
+        ast = [random_astar(rng) for _ in range(int(os.environ.get("YC07_N", 2500)) if tier == "quick" else 40000)]
+        step = max(1, len(out) // max(1, len(ast)))
+        mixed = []
+        for k, c in enumerate(out):
+            mixed.append(c)
+            if k % step == 0 and ast:
+                mixed.append(ast.pop())
+        return mixed + ast
 
     def fam_geometry(self, rng):
         def geometry(g):
@@ -1095,7 +1310,19 @@ class P(Prop):
                 "parallel_equal_weight": par, "repeated_vertex": rep,
                 "op_kinds": "".join(sorted({o[0] for o in ops})),
                 "node_forms": "".join(sorted({(a[0] if a[0] in "of" else "i") for o in ops if o[0] in "PDFB" for a in o[1:3] if isinstance(a, str) and a not in ("-", "none")})),
+                "astar": self.astar_tags(case),
                 "nops": len(ops) if len(ops) <= 3 else "4-9" if len(ops) <= 9 else "10-20" if len(ops) <= 20 else ">20"}
+
+    def astar_tags(self, case):
+        """which regimes the shortest_path calls of the case are made in"""
+        if not case.get("astar"):
+            return "-"
+        tl, st = timeline(case), settings_timeline(case)
+        tags = set()
+        for o, (view, _), se in zip(ops_of(case), tl, st):
+            if o[0] == "P":
+                tags.add("dijkstra" if se[0] != 1 else "astar-w0" if Fraction(nc.num(se[1])) == 0 else "astar-" + regime(case, view, o, se))
+        return ",".join(sorted(tags)) or "none"
 
     def weight_matters(self, case):
         """some shortest_path call asks for a pair whose distance a weight assignment has changed since the build"""
@@ -1115,7 +1342,7 @@ class P(Prop):
             return any(M is not None and self.nontrivial(M) for M in fam_split(case)[0])
         last = None
         for o, (view, stale) in zip(ops_of(case), timeline(case)):
-            if o[0] in MUTATIONS:
+            if o[0] in MUTATIONS or o[0] in SETTINGS:
                 continue
             d = view.d
             if o[0] == "B":
@@ -1178,6 +1405,12 @@ class P(Prop):
             for op in ops:
                 if op[0] in MUTATIONS:
                     out.append({"op": op[0], "r": self.modify(net, case, op, nid, eid, inv, einv)})
+                elif op[0] == "M":
+                    net.setRoutingMethod(op[1])
+                    out.append({"op": "M"})
+                elif op[0] == "A":
+                    net.setAStarWeight(op[1])
+                    out.append({"op": "A"})
                 else:
                     out.append(self.route_op(net, case, op, arg, od, nid, inv, einv, mut))
             dct = sorted([inv.get(k[0], -1), inv.get(k[1], -1), nc.tok(Fraction(v))] for k, v in od.items())
@@ -1377,7 +1610,56 @@ class P(Prop):
             built = [None if N is None else self.readback(N, n, nid, inv, einv) for N in nets]
         return {"fam": out, "dicts": dicts, "nets": built}
 
+    def compare_famp(self, case, impl_out, reply):
+        """the Lean family model (ONE program on one common flag store, Model/GraphSharedPath.lean execFamP) against the real
+        objects: which nodes and edges every sub_network holds, in order; what every shortest_path returns. (Distances and
+        forward / backward passes are compared through the per-network sessions.)"""
+        if reply == "bad-request":
+            return "family program: bad-request"
+        items = reply.split("|")
+        _, where = self.fam_program(case)
+        if any("err" in o and o.get("err") == "member" for o in impl_out["fam"]) or any(op[0] == "X" and "err" in o for (k, op), o in zip(case["fops"], impl_out["fam"])):
+            return None       # a call on a network that does not exist (shrunk cases): the numbering of the networks differs
+        for j, ((k, op), x, w) in enumerate(zip(case["fops"], impl_out["fam"], where)):
+            if w is None or w >= len(items):
+                continue
+            y = items[w]
+            bad = "family program (Lean family model, one common flag store), call %d on network %d %s: impl=%s model=%s" % (j, k, op, x, y)
+            if op[0] == "X":
+                want = "s:%s/%s" % (",".join(str(v) for v in x["nodes"]) or "_", ",".join(str(i) for i in x["edges"]) or "_")
+                if y != want:
+                    return bad
+            elif op[0] == "P":
+                if "err" in x:
+                    if y != "err":
+                        return bad
+                    continue
+                if y == "err" or "@" not in y:
+                    return bad
+                p, label = y.split("@")
+                if label != x["label"]:
+                    return bad
+                if isinstance(x["p"], dict):
+                    if ":" not in p:
+                        return bad
+                    nodes, pts = p.split(":")
+                    q = [] if pts == "_" else pts.split(",")
+                    if [int(v) for v in nodes.split(",")] != x["p"]["path"] or [[q[i], q[i + 1]] for i in range(0, len(q), 2)] != x["p"]["xy"]:
+                        return bad
+                elif p != x["p"]:
+                    return bad
+        return None
+
     def compare_fam(self, case, impl_out, model_out):
+        famp = None
+        if model_out and isinstance(model_out[-1], dict) and "famp" in model_out[-1]:
+            famp, model_out = model_out[-1]["famp"], model_out[:-1]
+        m = self.compare_fam_sessions(case, impl_out, model_out)
+        if m is None and famp is not None:
+            m = self.compare_famp(case, impl_out, famp)
+        return m
+
+    def compare_fam_sessions(self, case, impl_out, model_out):
         members, where, _ = fam_split(case)
         got = [o for (k, op), o in zip(case["fops"], impl_out["fam"]) if op[0] == "X"]
         if len(impl_out["fam"]) != len(case["fops"]) or len(model_out) != len(members):
@@ -1442,9 +1724,44 @@ class P(Prop):
                 yield dict(case, lines=case["lines"][:k] + [[l[0], l[-1]]] + case["lines"][k + 1:])
 
     # ---------------------------------------------------------------- model
+    def fam_program(self, case):
+        """the family as ONE program for the Lean family model (Model/GraphShared.lean + Model/GraphSharedPath.lean: one common
+        flag store, sub_network's kept edges computed by the model): the driver request, and per fop the index of its output
+        (None: the op is not sent — run_routing_backward, which the family model does not have)"""
+        flat = lambda pts: ",".join("%d,%d" % (x, y) for (x, y) in pts) if pts else "e"
+        edges = nc.expand(case)
+        pos = ";".join(flat([p]) for p in case["pos"]) if case["pos"] else "_"
+        lines = ";".join(flat(l) for l in case["lines"]) if case["lines"] else "_"
+        calls = build_calls(case)
+        ops = ["0:c"] + ["0:n,%d" % v for (v, _, _) in calls["pre"]]
+        ops += ["0:e,%d,%d,%d,%s,%d" % (i, s_, t_, nc.tok(nc.num(w)), o) for (i, s_, t_, w, o) in edges]
+        ops += ["0:n,%d" % v for (v, _, _) in calls["post"]]
+        where = []
+        for (k, o) in case["fops"]:
+            c = o[3] if o[0] in "PDF" else (o[2] if o[0] == "X" else None)
+            if o[0] == "P":
+                tok_ = "P,%d,%d,%s" % (idx(o[1]), idx(o[2]), c)
+            elif o[0] == "X":
+                tok_ = "x,%d,%s" % (idx(o[1]), c)
+            elif o[0] == "W":
+                tok_ = "W,%d,%s" % (o[1], nc.tok(nc.num(o[2])))
+            elif o[0] == "D" and o[2] == "-":
+                tok_ = "l,%d,%s,%d" % (idx(o[1]), c, 1 if o[4] else 0)
+            elif o[0] == "D":
+                tok_ = "d,%d,%d,%s,%d" % (idx(o[1]), idx(o[2]), c, 1 if o[4] else 0)
+            elif o[0] == "F":
+                tok_ = "r,%d,%s,%s,%d" % (idx(o[1]), "_" if o[2] == "-" else str(idx(o[2])), c, 1 if o[4] else 0)
+            else:
+                where.append(None)
+                continue
+            where.append(len(ops))
+            ops.append("%d:%s" % (k, tok_))
+        req = "C07.fampaths %d %s %s %s %d %s" % (case["n"], nc.edges_token(edges), pos, lines, 1 if case.get("af") else 0, ";".join(ops))
+        return req, where
+
     def requests(self, case):
         if case.get("fam"):
-            return [self.mut_requests(M)[0] for M in fam_split(case)[0] if M is not None and not self.fam_empty(M)]
+            return [self.mut_requests(M)[0] for M in fam_split(case)[0] if M is not None and not self.fam_empty(M)] + [self.fam_program(case)[0]]
         if case.get("mut"):
             return self.mut_requests(case)
         edges = nc.expand(case)
@@ -1458,11 +1775,21 @@ class P(Prop):
         for o in ops_of(case):
             if o[0] == "B":
                 ops.append("B:%s" % a(o[1]))
+            elif o[0] == "M":
+                ops.append("M:%d" % o[1])
+            elif o[0] == "A":
+                ops.append("A:%s" % fbits(float(o[1])))
             else:
                 ops.append("%s:%s:%s:%s:%d" % (o[0], a(o[1]), a(o[2]), ct(o[3]), 1 if o[4] else 0))
         etok = nc.edges_token(edges) if not fl else (";".join("%d,%d,%d,%s,%d" % (i, u, v, fbits(w), o) for (i, u, v, w, o) in edges) or "_")
         calls = build_calls(case)
         ctok = lambda l: ";".join(",".join(str(x) for x in c) for c in l) if l else "_"
+        if case.get("astar"):
+            # the coordinates Node.distanceTo reads: (x, y, altitude) of every node
+            hpos = ";".join("%s,%s,%s" % (fbits(float(x)), fbits(float(y)), fbits(float(alt(x, y)))) for (x, y) in case["pos"]) or "_"
+            return ["C07.fbuild %d %s %s %s %s" % (case["n"], ctok(calls["pre"]), etok, ctok(calls["ends"]), ctok(calls["post"])),
+                    "C07.fasession %d %s %s %s %s %d %s %s" % (case["n"], ",".join(str(v) for v in eff_order(case)), etok, pos, lines,
+                                                              1 if case.get("af") else 0, hpos, ";".join(ops) if ops else "_")]
         return ["C07.%sbuild %d %s %s %s %s" % ("f" if fl else "", case["n"], ctok(calls["pre"]), etok, ctok(calls["ends"]), ctok(calls["post"])),
                 "C07.%ssession %d %s %s %s %s %d %s" % ("f" if fl else "", case["n"], ",".join(str(v) for v in eff_order(case)), etok, pos, lines,
                                                        1 if (case.get("af") or case.get("build") == "reader") else 0, ";".join(ops) if ops else "_")]
@@ -1561,6 +1888,7 @@ class P(Prop):
                     out.append({"ops": [], "dict": [], "net": {"next": [[] for _ in range(n)], "pos": [None] * n, "order": [], "edges": [], "geoms": []}})
                 else:
                     out.append(None if M is None else self.mut_decode(M, [next(it)]))
+            out.append({"famp": next(it)})      # the family as one program of the Lean family model
             return out
         if case.get("mut"):
             return self.mut_decode(case, replies)
@@ -1580,7 +1908,9 @@ class P(Prop):
             raise ValueError("%d outputs for %d ops" % (len(items), len(ops)))
         res = []
         for op, item in zip(ops, items):
-            if item == "attr":
+            if op[0] in SETTINGS:
+                res.append({"op": op[0]} if item == "ok" else {"op": op[0], "err": item})
+            elif item == "attr":
                 res.append({"op": "B", "err": "attr"})
             elif item == "ok":
                 res.append({"op": "F"})
@@ -1634,6 +1964,8 @@ class P(Prop):
             if nx["ends"] != want:
                 return "network as built: edges (id, source, target, orientation, ends are the registered nodes) %s, given %s" % (nx["ends"], want)
         tl = timeline(case, frozen_ori=True)      # model and implementation both route by NEXT_EDGES as addEdge filled it
+        sett = settings_timeline(case) if case.get("astar") else None
+        approx = False        # the last search was an A* search for a target with a heuristic that is not consistent
         view = [None]
 
         def dist():
@@ -1644,7 +1976,7 @@ class P(Prop):
             view[0], stale = tl[k]
             if k in skip:
                 continue        # (family) a backward pass on routing attributes written by another network's search
-            if op[0] in MUTATIONS:
+            if op[0] in MUTATIONS or op[0] in SETTINGS:
                 if x != y:
                     return bad
                 continue
@@ -1656,6 +1988,7 @@ class P(Prop):
                 continue
             if op[0] != "B":
                 last = (idx(op[1]), None if op[2] == "-" else idx(op[2]), cutval(op[3], fl))
+                approx = sett is not None and regime(case, view[0], op, sett[k]) == "approx"
             strict = op[0] == "B" and stale       # old flags on the content of now: nothing to validate, the model must agree
             if "p" not in x or "p" not in y:
                 if x == y:
@@ -1665,6 +1998,10 @@ class P(Prop):
                     s0, t0, c0 = last
                     if "val" in x:           # free only beyond the cut-off
                         if d[s0][t0] is not None and not within(d[s0][t0], c0, fl) and x["val"] != "none":
+                            continue
+                        # A*, heuristic not consistent: the weight of some walk (never below the minimum); which one depends
+                        # on the order in which equal priorities leave the queue
+                        if approx and d[s0][t0] is not None and x["val"] != "none" and (Fraction(x["val"]) >= d[s0][t0] or same(Fraction(x["val"]), d[s0][t0], fl)):
                             continue
                     elif len(x["vals"]) == len(y["vals"]) == len(view[0].order):
                         order = view[0].order if case.get("mut") else eff_order(case)
@@ -1685,6 +2022,12 @@ class P(Prop):
             if s0 == t or d[s0][t] is None:
                 return bad
             complete = (t0 is None or t0 == t) and within(d[s0][t], c0, fl)
+            if approx and complete:
+                # A* with a heuristic that is not consistent: which route comes out depends on the order in which equal
+                # priorities leave the queue — any real route weighing its label (a path there must be when no cut-off is given)
+                if px == "none" and c0 is None:
+                    return bad
+                complete = False
             if px == "none":
                 if complete:
                     return bad
@@ -1708,13 +2051,27 @@ class P(Prop):
             A = {(e[0], e[1]): e[2] for e in impl_out["dict"]}
             B = {(e[0], e[1]): e[2] for e in model_out["dict"]}
             free = set()
-            for op in ops:
-                if op[0] != "B" and op[4] and op[2] != "-":
+            loose = set()        # sources of A* searches whose heuristic is not consistent: entries are weights of walks, not distances
+            for k, op in enumerate(ops):
+                if op[0] in "PDF" and op[4] and op[2] != "-":
                     s0, t0 = idx(op[1]), idx(op[2])
-                    if d[s0][t0] is not None:
+                    if sett is not None and sett[k][0] == 1:
+                        # A*: the nodes recorded before the target leaves the queue are those of smaller PRIORITY g + h; ties
+                        # of priority are broken by the queue
+                        import math
+                        if regime(case, view[0], op, sett[k]) == "approx":
+                            loose.add(s0)
+                            free |= {(s0, v) for v in range(n)}
+                        elif d[s0][t0] is not None:
+                            pos_ = [view[0].pos.get(v, case["pos"][v]) for v in range(n)]
+                            f_ = lambda v: float(d[s0][v]) + float(sett[k][1]) * math.sqrt(float(hdist_sq(pos_, v, t0)))
+                            free |= {(s0, v) for v in range(n) if d[s0][v] is not None and abs(f_(v) - float(d[s0][t0])) <= 1e-9 * max(1.0, float(d[s0][t0]))}
+                    elif d[s0][t0] is not None:
                         free |= {(s0, v) for v in range(n) if d[s0][v] is not None and same(d[s0][v], d[s0][t0], fl)}
             for key, v in A.items():
-                if not (0 <= key[0] < n and 0 <= key[1] < n) or d[key[0]][key[1]] is None or not same(Fraction(v), d[key[0]][key[1]], fl):
+                if not (0 <= key[0] < n and 0 <= key[1] < n) or d[key[0]][key[1]] is None:
+                    return bad
+                if not same(Fraction(v), d[key[0]][key[1]], fl) and not (key[0] in loose and Fraction(v) >= d[key[0]][key[1]]):
                     return bad
             if any(key not in free for key in set(A) ^ set(B)):
                 return bad
@@ -1788,9 +2145,10 @@ class P(Prop):
             return "path %s via edges %s weighs %s, the shortest distance is %s" % (x["path"], x["edges"], float(total) if fl else nc.tok(total), float(d[s][t]) if fl else nc.tok(d[s][t]))
         return None
 
-    def check_result(self, case, view, d, s, t, c, complete, o, what):
+    def check_result(self, case, view, d, s, t, c, complete, o, what, approx=False):
         """the result `o` of a path request to t after a search from s with cut-off c; complete: the search was not
-        stopped at another target (it ran to t, or to exhaustion / the cut-off)"""
+        stopped at another target (it ran to t, or to exhaustion / the cut-off); approx: the search was an A* search for t
+        with a heuristic that is not consistent (documented as approximate: optimality is not required)"""
         x = o["p"]
         fl = bool(case.get("float"))
         lab = None if o["label"] == "none" else Fraction(o["label"])
@@ -1800,6 +2158,12 @@ class P(Prop):
             if x != "none":
                 return "%s returns %s but no permitted walk exists" % (what, x)
             return None
+        if approx and complete:
+            # a reachable target: without a cut-off a path is returned; whatever is returned is a real, continuous route
+            # whose weights sum to the value reported for the target
+            if x == "none" and c is None:
+                return "%s returns None but the target is reachable (distance %s)" % (what, nc.tok(d[s][t]))
+            complete = False
         if complete and within(d[s][t], c, fl):
             if not isinstance(x, dict):
                 return "%s returns %s but the target is reachable at distance %s" % (what, x, nc.tok(d[s][t]))
@@ -1847,13 +2211,15 @@ class P(Prop):
         if len(out["ops"]) != len(ops):
             return "%d results for %d calls" % (len(out["ops"]), len(ops))
         tl = timeline(case, frozen_ori)
+        st = settings_timeline(case) if case.get("astar") else None
         last = None
+        approx = False            # the last search was an A* search whose heuristic is not consistent
         for k, (op, o) in enumerate(zip(ops, out["ops"])):
             pre = "call %d: " % k if ("ops" in case or case.get("seq")) else ""
             view, stale = tl[k]
             if k >= case.get("blind_from", len(ops)):
                 break             # (family) an Edge object this network shares was modified through another network
-            if op[0] in MUTATIONS:
+            if op[0] in MUTATIONS or op[0] in SETTINGS:
                 continue          # the statement is about what the routing calls return
             if case.get("mut"):
                 pre += "[after %s] " % ", ".join(self.show_mut(m) for m in ops[:k] if m[0] in MUTATIONS) if view.version else ""
@@ -1869,17 +2235,21 @@ class P(Prop):
                 s0, t0, c0 = last
                 t = idx(op[1])
                 m = self.check_result(case, view, d, s0, t, c0, t0 is None or t0 == t, o,
-                                      "%srun_routing_backward(%d) after the search from %d (target %s, cut %s)" % (pre, t, s0, t0, "none" if c0 is None else nc.tok(c0)))
+                                      "%srun_routing_backward(%d) after the search from %d (target %s, cut %s)" % (pre, t, s0, t0, "none" if c0 is None else nc.tok(c0)), approx)
                 if m:
                     return m
                 continue
             s, t, c = idx(op[1]), (None if op[2] == "-" else idx(op[2])), cutval(op[3], bool(case.get("float")))
             last = (s, t, c)
+            if st is not None:
+                approx = regime(case, view, op, st[k]) == "approx"
+                if st[k][0] == 1 and t is not None:
+                    pre += "[A*, astar_wgt %s, heuristic %s] " % (st[k][1], "not consistent: optimality not required" if approx else "consistent")
             if op[0] == "P":
                 if "err" in o:
                     return "%sshortest_path(%d,%d) raised %s" % (pre, s, t, o["err"])
                 m = self.check_result(case, view, d, s, t, c, True, o,
-                                      "%sshortest_path(%d,%d%s)" % (pre, s, t, "" if c is None else ",cut=%s" % nc.tok(c)))
+                                      "%sshortest_path(%d,%d%s)" % (pre, s, t, "" if c is None else ",cut=%s" % nc.tok(c)), approx)
                 if m:
                     return m
         return None
@@ -1904,10 +2274,17 @@ class P(Prop):
             yield from self.shrink_fam(case)
             return
         ops = case.get("ops")
+        if ops is not None and case.get("astar") and len(ops) > 4:
+            # one query with the settings in force when it is made (the searches of a session do not depend on each other)
+            for k, o in enumerate(ops):
+                if o[0] == "P":
+                    yield dict(case, ops=[q for q in ops[:k] if q[0] in SETTINGS] + [o])
         if ops is not None:
             for k in range(len(ops)):
                 yield dict(case, ops=ops[:k] + ops[k + 1:])
             for k, o in enumerate(ops):
+                if o[0] in SETTINGS:
+                    continue
                 simp = [o[0]] + [a.lstrip("of") if isinstance(a, str) and a[:1] in "of" else a for a in o[1:]]
                 if o[0] in MUTATIONS:
                     # the plainest form of the modification: through getEdge / a new object, a two-vertex polyline
